@@ -1,6 +1,6 @@
 (** C18: the abstract [add] instantiated with the Stack model's add_dcm (coq/Stack/Model.v).
     Transactionality is C11's lemma (Stack/ProofsC11.v: a refused add leaves the state as it was). *)
-From Coq Require Import List Bool ZArith NArith QArith Arith.
+From Coq Require Import List Bool ZArith NArith QArith Arith Permutation.
 From Coq Require Qcanon.
 From DV Require Import Common.Res Common.Str Generated.T_group Group.Model Group.Spec
   Group.ProofsSkip Group.ProofsIsolation Group.Examples.
@@ -36,36 +36,49 @@ Proof.
   intros H1 H2. eapply stack_skip; [exact real_add_transactional | exact H1 | apply real_add_refuses; exact H2].
 Qed.
 
-Theorem parse_and_stack_isolation_real (p : Stack.Model.file -> bool) group_by atol init
+(** len(stack._files_info) *)
+Definition real_n_files (st : Stack.Model.state) : nat := length (Stack.Model.files_info st).
+
+Theorem parse_and_stack_isolation_real (p : Stack.Model.file -> bool) group_by atol time_order vector_order
         (l : list (rd Stack.Model.file)) gs w :
+  let init := Stack.Model.init time_order vector_order in
   0 <= atol ->
   parse_and_group group_by default_close_keys atol true l = Ok (gs, w) ->
-  (forall g f, In g gs -> hd_error (snd g) = Some f -> p f = true) ->
+  heads_closed p gs ->
   (forall g, In g gs -> refused_along p real_add init (snd g)) ->
-  parse_and_stack _ real_add group_by atol true init l
-  = bump_warn (length l - length (drop_files p l)) (parse_and_stack _ real_add group_by atol true init (drop_files p l)).
-Proof. intros. eapply parse_and_stack_isolation; try eassumption. exact real_add_transactional. Qed.
+  exists sts sts' w',
+    parse_and_stack _ real_add real_n_files group_by atol true init l = Ok (sts, (length l - length (drop_files p l) + w')%nat) /\
+    parse_and_stack _ real_add real_n_files group_by atol true init (drop_files p l) = Ok (sts', w') /\
+    Permutation sts sts'.
+Proof.
+  intros init Hat H Hh Hr. eapply parse_and_stack_isolation; try eassumption; [exact real_add_transactional | reflexivity].
+Qed.
 
 (* ------------------------------------------------------------------ concrete Stack files *)
 
-Definition sfile (i : nat) (rows : nat) (pos : Q) (t : Q) (tr : Q) (phase : str) : Stack.Model.file :=
-  Stack.Model.mkfile i true rows 2 [1; 1] ax (Qcanon.Q2Qc pos) (Some (Qcanon.Q2Qc t)) None [] (Some (Qcanon.Q2Qc tr)) (Some phase)
+Definition sfile' (has_pix : bool) (i : nat) (rows : nat) (pos : Q) (t : Q) (tr : Q) (phase : str) : Stack.Model.file :=
+  Stack.Model.mkfile i has_pix rows 2 [1; 1] [1; 0; 0; 0; 1; 0] (Qcanon.Q2Qc pos) (Some (Qcanon.Q2Qc t)) None [] (Some (Qcanon.Q2Qc tr)) (Some phase)
                      1 12 false.
 
+Definition sfile := sfile' true.
 Definition sA := sfile 0 2 0 1 2000 [82%N].
 Definition sB := sfile 1 2 1 1 2000 [82%N].
 Definition sC := sfile 8 2 0 1 3000 [67%N].       (* same position and time point as sA, other TR / phase: collides *)
 Definition sD := sfile 9 3 5 7 2000 [82%N].       (* other Rows: incongruent *)
 
+Definition sE := sfile' false 7 2 3 1 2000 [82%N].   (* add_dcm refuses it (NonImageDataSetError); alone in its group *)
+
 Definition sinit : Stack.Model.state := Stack.Model.init true false.     (* DicomStack(time_order=...) *)
 
 Definition sm : meta := mk [49%N] 1%Z [97%N] ax.
+Definition sm2 : meta := mk [49%N] 1%Z [98%N] ax.
 
-(** one series: sA, the collider, an unreadable file, sB, the incongruent file *)
+(** one series: sA, the collider, an unreadable file, sB, the incongruent file; a second series whose only
+    file is refused *)
 Definition real_l : list (rd Stack.Model.file) :=
-  [ Data pix sA sm; Data pix sC sm; Fault ECrash; Data pix sB sm; Data pix sD sm ].
+  [ Data pix sE sm2; Data pix sA sm; Data pix sC sm; Fault ECrash; Data pix sB sm; Data pix sD sm ].
 
-Definition keep_real (f : Stack.Model.file) : bool := Nat.ltb (Stack.Model.f_id f) 8.
+Definition keep_real (f : Stack.Model.file) : bool := Nat.ltb (Stack.Model.f_id f) 7.
 
 Definition ids_of (r : res (list (list gval * Stack.Model.state) * nat)) : res (list (list nat) * nat) :=
   rmap (fun x => (map (fun ks => map (fun e => Stack.Model.f_id (fst e)) (Stack.Model.files_info (snd ks))) (fst x), snd x)) r.
